@@ -61,7 +61,7 @@ def describe(tr):
     if tr["mode"] == "pixels":
         return "page %dx%d (HxW) rot=%d" % (tr["H"], tr["W"], tr["k"])
     return "rot=%d ds=%d endpoints=%s ridges=%s -> %d lines %s" % (
-        tr["k"], tr["ds"], tr["ep"], [(r["y"], r["x0"], r["x1"]) for r in tr["ridges"]], len(tr["lines"]),
+        tr["k"], tr["ds"], tr["ep"], [(r["y"], r["x0"], r["x1"], r.get("dy", 0)) for r in tr["ridges"]], len(tr["lines"]),
         [(l["pts"][0], l["pts"][-1], l["h"]) for l in tr["lines"]][:3])
 
 
@@ -98,8 +98,8 @@ def run(ctx):
                 "configuration of the bounded space (rotation x down-sampling x end-point responses x up to three ridges) through "
                 "LayoutEngine.detect with a stub network; non-trivial = non-square page with k>0, or a rotated ridge configuration" % (mh, mw))
     ctx.exhaustive = True
-    ctx.assume("PARTIAL: decoding of arbitrary real-valued maps (smoothing, non-maxima suppression, percentiles), sloped ridges and the "
-               "clustering of lines into regions are NOT covered; ridges are straight, horizontal in the analysed orientation, Gaussian profile",
+    ctx.assume("PARTIAL: decoding of arbitrary real-valued maps (smoothing, non-maxima suppression, percentiles), curved ridges and the "
+               "clustering of lines into regions are NOT covered; ridges are straight (flat, or parallel with a rise of 18 map px over 58), Gaussian profile",
                "ridge length >= 6 map px without end-point responses, >= 10 with them (the responses erase two pixels at each end)",
                "tolerances: end points 3 map px + 1 px, row 1 map px + 1 px, heights 1 % of a map pixel, regions 6 px",
                "LayoutEngine built with __new__ and the constructor's default parameters; np.random seeded (tie-breaker of the left-to-right sort)")
@@ -122,17 +122,22 @@ def run(ctx):
             tr["px"][4][6] += 2000            # one returned baseline point lands two pixels away
             return tr
         ctx.selftest_corrupt("LayoutDecode_Trace", good, corrupt, constants=dict(pc, Level="property"))
-    # ---- ridges
+    # ---- ridges: flat ridges of the main space, then long parallel SLOPED ridges whose rise (18 map px) exceeds the spacing of
+    # the rows (16), so that the bounding boxes of neighbouring ridges overlap
+    sloped = K.ridge_bounds(Dss=[1, 2] if ctx.tier == "quick" else [1, 2, 4], Rows=[8, 24], X0s=[3], Lens=[0, 58], Dys=[0, 18])
+    for sname, space in (("ridges", rb), ("sloped-ridges", sloped)):
+        rc = K.tla_constants(space, "ridges", "ok")
+        res = ctx.tlc("LayoutDecode", constants=rc, invariants=["OnePerRidge", "ScaledByDs", "BackToOriginal", "InsideOriginal"], workers=4,
+                      label="LayoutDecode " + sname)
+        cases = K.enumerate_ridge_cases(space)
+        if _init_count(res) != len(cases):
+            raise MachineryFailure("C18 %s: TLC explored %d configurations, the driver %d" % (sname, _init_count(res), len(cases)))
+        traces = pmap(K.run_case, cases, procs=6)
+        judge(ctx, sname, rc, cases, traces)
+        for c in cases:
+            ctx.count(1, (sname, c["k"], c["ds"], c["ep"], c["rm"], tuple((r["y"], r["x0"], r["x1"], r["dy"]) for r in c["ridges"]))
+                      if c["k"] > 0 else None)
     rc = K.tla_constants(rb, "ridges", "ok")
-    res = ctx.tlc("LayoutDecode", constants=rc, invariants=["OnePerRidge", "ScaledByDs", "BackToOriginal", "InsideOriginal"], workers=4,
-                  label="LayoutDecode ridges")
-    cases = K.enumerate_ridge_cases(rb)
-    if _init_count(res) != len(cases):
-        raise MachineryFailure("C18 ridges: TLC explored %d configurations, the driver %d" % (_init_count(res), len(cases)))
-    traces = pmap(K.run_case, cases, procs=6)
-    judge(ctx, "ridges", rc, cases, traces)
-    for c in cases:
-        ctx.count(1, ("ridge", c["k"], c["ds"], c["ep"], tuple((r["y"], r["x0"], r["x1"]) for r in c["ridges"])) if c["k"] > 0 else None)
     ctx.sample({"space": "ridges", "trace": traces[len(traces) // 2]}, limit=4)
     ctx.notes["explanation"] = ("TLC exhaustive on LayoutDecode.tla (pixels: RotIsBijection, BackWithinOnePixel; ridges: OnePerRidge, ScaledByDs, "
                                 "BackToOriginal, InsideOriginal); the same pages and ridge configurations executed by np.rot90 inside "
